@@ -445,8 +445,9 @@ func (d *drv) spliceProtocol(f *fx) {
 	run("valid", &pb.SpliceBlobRequest{BlobDigest: cat(c1, c2).dg(), ChunkDigests: []*pb.Digest{c1.dg(), c2.dg()}}, codes.OK, 0)
 	// Put refuses before reading (10 MiB > disk limit): the writer is inside io.Copy(pw, rc) on 2.3 MiB chunks
 	four := []*pb.Digest{big.dg(), big.dg(), big.dg(), big.dg()}
-	run("Put refuses before reading, server-side hashing", &pb.SpliceBlobRequest{ChunkDigests: four}, codes.Unknown, 0)
-	run("Put refuses before reading", &pb.SpliceBlobRequest{BlobDigest: cat(big, big, big, big).dg(), ChunkDigests: four}, codes.Unknown, 0)
+	// (the refusal is a *cache.Error 400: since the repair of F37 SpliceBlob classifies it like the other write paths)
+	run("Put refuses before reading, server-side hashing", &pb.SpliceBlobRequest{ChunkDigests: four}, codes.InvalidArgument, 0)
+	run("Put refuses before reading", &pb.SpliceBlobRequest{BlobDigest: cat(big, big, big, big).dg(), ChunkDigests: four}, codes.InvalidArgument, 0)
 	// Put fails at the very end (hash of the whole is wrong)
 	c3 := f.store(d.r.Bytes(80000), "c3")
 	run("wrong hash of the whole", &pb.SpliceBlobRequest{BlobDigest: dig(sha([]byte("other")), c1.size+c3.size), ChunkDigests: []*pb.Digest{c1.dg(), c3.dg()}}, codes.Unknown, 0)
